@@ -326,7 +326,26 @@ Inductive sres : Type :=
 | SVal (v : option str)            (* reply s  /  noReply *)
 | SStop (o : outcome).
 
-Record call := Call { c_plugin : str; c_cmd : list str; c_args : list str; c_thr : bool }.
+(* the keyword arguments of irc.reply that stick to a proxy: self.action, self.noLengthCheck, self.notice,
+   self.private, self.to ([] = None).  (prefixNick is not modelled: the test traffic is a private query.) *)
+Record rflags := RFlags { rf_action : bool; rf_nolen : bool; rf_notice : bool; rf_private : bool; rf_to : str }.
+Definition no_flags : rflags := RFlags false false false false [].
+
+(* NestedCommandsIrcProxy.reply(s, noLengthCheck=, action=, notice=, private=, to=): the updates made before
+   anything else, on a proxy whose attributes are [a]:
+     if action is not None: self.action = self.action or action
+     if notice is not None: self.notice = self.notice or notice
+     if private is not None: self.private = self.private or private
+     self._getTarget(to): if to is not None: self.to = self.to or to
+     self.noLengthCheck = noLengthCheck or self.noLengthCheck or self.action *)
+Definition merge_attrs (a f : rflags) : rflags :=
+  let action := rf_action a || rf_action f in
+  RFlags action (rf_nolen f || rf_nolen a || action) (rf_notice a || rf_notice f) (rf_private a || rf_private f)
+         (match rf_to a with [] => rf_to f | t => t end).
+
+(* one executed command: who, with what, in which thread; the proxy's sticky reply attributes when the command
+   starts (inherited from its sub-commands' replies) and those its own reply is made with *)
+Record call := Call { c_plugin : str; c_cmd : list str; c_args : list str; c_thr : bool; c_attrs : rflags; c_rattrs : rflags }.
 
 (* finalEval of a proxy whose args are the strings [strs] (non-empty):
    the call that is logged (if a command method runs), whether the selected
@@ -335,6 +354,7 @@ Record finalres := FinalRes {
   fr_call : option (str * list str * list str);
   fr_threaded : bool;
   fr_tag : bool;                   (* the command does msg.tag('ignored') before replying / noReply (Utilities.ignore) *)
+  fr_flags : rflags;               (* keyword arguments of its irc.reply call *)
   fr_res : sres }.
 
 Record config := Config {
@@ -349,7 +369,8 @@ Section Machine.
 Variable final : list str -> finalres.
 Variable K : config.
 
-Record frame := Frame { f_done : list str; f_rest : list arg; f_nested : nat }.
+(* f_attrs: (the proxy's sticky reply attributes, those of the sub-command proxy that last called noReply on it) *)
+Record frame := Frame { f_done : list str; f_rest : list arg; f_nested : nat; f_attrs : rflags * rflags }.
 
 Record mstate := MState {
   m_stack : list frame;            (* innermost proxy first *)
@@ -375,7 +396,7 @@ Definition construct (stack : list frame) (log : list call) (thr : bool) (room :
        | S room' =>
            match args with
            | [] => Done log (OInvalid [])
-           | _ => Running (MState (Frame [] args nested :: stack) log thr room' ign)
+           | _ => Running (MState (Frame [] args nested (no_flags, no_flags) :: stack) log thr room' ign)   (* _resetReplyAttributes *)
            end
        end.
 
@@ -385,7 +406,7 @@ Definition construct (stack : list frame) (log : list call) (thr : bool) (room :
             self.evalArgs()
    noReply: self.args.pop(self.counter); msg.tag('ignored', False); self.evalArgs()
    so the tag is clear again whenever the parent's evalArgs starts. *)
-Definition deliver (v : option str) (stack : list frame) (log : list call) (thr : bool) (room : nat) (ign : bool) : status :=
+Definition deliver (v : option str) (ra : rflags) (stack : list frame) (log : list call) (thr : bool) (room : nat) (ign : bool) : status :=
   match stack with
   | [] => Done log (match v with Some s => OReply s | None => ONone end)
   | p :: stack' =>
@@ -394,29 +415,43 @@ Definition deliver (v : option str) (stack : list frame) (log : list call) (thr 
                                else AStr s :: tl (f_rest p)  (* self.args[self.counter] = s *)
                    | None => tl (f_rest p)                   (* self.args.pop(self.counter) *)
                    end in
-      Running (MState (Frame (f_done p) rest' (f_nested p) :: stack') log thr room false)
+      let attrs' := match v with
+                    | Some _ => (merge_attrs (fst (f_attrs p)) ra, snd (f_attrs p))   (* reply(s, noLengthCheck=, **replyArgs) *)
+                    | None => (fst (f_attrs p), ra)
+                    end in
+      Running (MState (Frame (f_done p) rest' (f_nested p) attrs' :: stack') log thr room false)
   end.
 
-Definition apply_res (r : sres) (stack : list frame) (log : list call) (thr : bool) (room : nat) (ign : bool) : status :=
+Definition apply_res (r : sres) (ra : rflags) (stack : list frame) (log : list call) (thr : bool) (room : nat) (ign : bool) : status :=
   match r with
   | SStop o => Done log o
-  | SVal v => deliver v stack log thr room ign
+  | SVal v => deliver v ra stack log thr room ign
   end.
 
-(* finalEval of the top proxy, its strings being [strs]; [stack] = the proxies above it *)
-Definition final_eval (strs : list str) (stack : list frame) (log : list call) (thr : bool) (room : nat) (ign : bool) : status :=
+(* finalEval of the top proxy, its strings being [strs], its attributes [at]; [stack] = the proxies above it.
+   The command's irc.reply(s, **flags) on this (finalEvaled) proxy first updates the sticky attributes, then
+     if isinstance(self.irc, self.__class__): return self.irc.reply(s, noLengthCheck=self.noLengthCheck, **replyArgs)
+     elif self.noLengthCheck: send directly         (root proxy only)
+     else: length-checked send                      (root proxy only)
+   i.e. a proxy with a parent ALWAYS hands the text to the parent, whatever the reply kind: that is [deliver]'s
+   match on the stack; both root branches send one message carrying the attributes. *)
+Definition final_eval (strs : list str) (at_ : rflags * rflags) (stack : list frame) (log : list call) (thr : bool) (room : nat) (ign : bool) : status :=
   match strs with
-  | [] => apply_res (k_on_empty K) stack log thr room ign
+  | [] =>
+      (* IndexError inside the sub-command that called noReply: its proxy replies the error text (replyError) with its
+         own attributes, through this proxy *)
+      apply_res (k_on_empty K) (merge_attrs (fst at_) (snd at_)) stack log thr room ign
   | _ =>
       let fr := final strs in
       let spawn := negb thr && fr_threaded fr in           (* world.isMainThread() and cb.threaded *)
       let thr' := thr || fr_threaded fr in
       let room' := if spawn then k_budget K else room in   (* a CommandThread starts on a fresh stack *)
+      let ra := merge_attrs (fst at_) (fr_flags fr) in     (* the sticky updates at the top of reply() *)
       let log' := match fr_call fr with
-                  | Some (p, c, a) => log ++ [Call p c a thr']
+                  | Some (p, c, a) => log ++ [Call p c a thr' (fst at_) ra]
                   | None => log
                   end in
-      apply_res (fr_res fr) stack log' thr' room' (ign || fr_tag fr)   (* msg.tag('ignored') *)
+      apply_res (fr_res fr) ra stack log' thr' room' (ign || fr_tag fr)   (* msg.tag('ignored') *)
   end.
 
 (* the while loop of evalArgs over args[counter:] *)
@@ -434,9 +469,9 @@ Definition eval_args (st : mstate) : status :=
       let '(done, rest) := scan (f_done f) (f_rest f) in
       match rest with
       | ASub sub :: _ =>
-          construct (Frame done rest (f_nested f) :: stack) (m_log st) (m_thr st) (m_room st) (m_ign st)
+          construct (Frame done rest (f_nested f) (f_attrs f) :: stack) (m_log st) (m_thr st) (m_room st) (m_ign st)
                     sub (S (f_nested f))
-      | _ => final_eval done stack (m_log st) (m_thr st) (m_room st) (m_ign st)
+      | _ => final_eval done (f_attrs f) stack (m_log st) (m_thr st) (m_room st) (m_ign st)
       end
   end.
 
@@ -531,16 +566,21 @@ End Machine.
 Inductive kind := KReply | KEcho | KSilent | KMute | KErr | KCrash | KForeign | KIgnore.
 
 Record behs := Behs {
-  b_table : list (str * str * str * kind);   (* plugin name, sub-callback name or [], method -> kind *)
+  b_table : list (str * str * str * kind * rflags);   (* plugin name, sub-callback name or [], method -> kind, reply keywords *)
   b_detailed : bool;                         (* supybot.reply.error.detailed *)
   b_crash_text : str;                        (* supybot.replies.error *)
   b_indexerr : str                           (* utils.exnToString(IndexError) of args[0] on [] *)
 }.
 
 Definition kind_of (B : behs) (p g m : str) : kind :=
-  match find (fun e => let '(p', g', m', _) := e in seq_eqb p p' && seq_eqb g g' && seq_eqb m m') (b_table B) with
-  | Some (_, _, _, k) => k
+  match find (fun e => let '(p', g', m', _, _) := e in seq_eqb p p' && seq_eqb g g' && seq_eqb m m') (b_table B) with
+  | Some (_, _, _, k, _) => k
   | None => KForeign
+  end.
+Definition flags_of (B : behs) (p g m : str) : rflags :=
+  match find (fun e => let '(p', g', m', _, _) := e in seq_eqb p p' && seq_eqb g g' && seq_eqb m m') (b_table B) with
+  | Some (_, _, _, _, f) => f
+  | None => no_flags
   end.
 
 Definition DOT : N := 46. Definition LPAR : N := 40. Definition RPAR : N := 41. Definition COMMA : N := 44.
@@ -553,11 +593,11 @@ Definition crash_res (B : behs) (exn_text : str) : sres :=
 Definition final_of (E : env) (B : behs) (strs : list str) : finalres :=
   let '(command, cbs) := findCallbacksForArgs E strs in
   match cbs with
-  | [] => FinalRes None false false (SStop (OInvalid strs))
+  | [] => FinalRes None false false no_flags (SStop (OInvalid strs))
   | [cb] =>
       let args := skipn (length command) strs in
       match p_resolve cb command with
-      | None => FinalRes None false false (SStop OForeign)
+      | None => FinalRes None false false no_flags (SStop OForeign)
       | Some (g, m) =>
           let owner := match g with [] => p_name cb | _ => p_name cb ++ [DOT] ++ g end in
           let r := match kind_of B (p_name cb) g m with
@@ -571,9 +611,10 @@ Definition final_of (E : env) (B : behs) (strs : list str) : finalres :=
                    | KIgnore => SVal None                                  (* msg.tag('ignored'); irc.noReply() *)
                    end in
           FinalRes (Some (p_name cb, command, args)) (p_threaded cb)
-                   (match kind_of B (p_name cb) g m with KIgnore => true | _ => false end) r
+                   (match kind_of B (p_name cb) g m with KIgnore => true | _ => false end)
+                   (match kind_of B (p_name cb) g m with KReply | KEcho => flags_of B (p_name cb) g m | _ => no_flags end) r
       end
-  | _ => FinalRes None false false (SStop (OAmbiguous command (map p_name cbs)))
+  | _ => FinalRes None false false no_flags (SStop (OAmbiguous command (map p_name cbs)))
   end.
 
 (* ---- wire ---- *)
@@ -605,8 +646,12 @@ Definition gEnv (v : value) : env :=
       (fold_left (fun d op => dis_add d (gS (nth_v 0 op)) (gO gS (nth_v 1 op))) (gL (nth_v 1 v)) dis_empty)
       (fold_left (fun d kv => dict_set (gS (nth_v 0 kv)) (gS (nth_v 1 kv)) d) (gL (nth_v 2 v)) gen.T14.OWNER_DEFAULTS)
       (gLS (nth_v 3 v)).
+Definition gFlags (v : value) : rflags :=
+  RFlags (gB (nth_v 0 v)) (gB (nth_v 1 v)) (gB (nth_v 2 v)) (gB (nth_v 3 v)) (gS (nth_v 4 v)).
+Definition vFlags (f : rflags) : value :=
+  L [vB (rf_action f); vB (rf_nolen f); vB (rf_notice f); vB (rf_private f); vS (rf_to f)].
 Definition gBehs (v : value) : behs :=
-  Behs (map (fun e => (gS (nth_v 0 e), gS (nth_v 1 e), gS (nth_v 2 e), gKind (nth_v 3 e))) (gL (nth_v 0 v)))
+  Behs (map (fun e => (gS (nth_v 0 e), gS (nth_v 1 e), gS (nth_v 2 e), gKind (nth_v 3 e), gFlags (nth_v 4 e))) (gL (nth_v 0 v)))
        (gB (nth_v 1 v)) (gS (nth_v 2 v)) (gS (nth_v 3 v)).
 
 Definition nat_of (v : value) : nat := N.to_nat (gN v).
@@ -614,7 +659,7 @@ Definition vNat (n : nat) : value := vN (N.of_nat n).
 
 Definition vOutcome (o : outcome) : value :=
   match o with
-  | OReply s => L [vN 0; vS (match s with [] => gen.T14.EMPTY_MSG | _ => s end)]   (* _makeReply of the text *)
+  | OReply s => L [vN 0; vS s]      (* the harness applies _makeReply's empty-text rule, which depends on the reply kind *)
   | OError s => L [vN 1; vS (match s with [] => [] | _ => gen.T14.ERROR_PREFIX ++ s end)]
   | ONone => L [vN 2]
   | OStall => L [vN 3]
@@ -624,11 +669,12 @@ Definition vOutcome (o : outcome) : value :=
   | OAbandoned => L [vN 7]
   | OForeign => L [vN 8]
   end.
-Definition vCall (c : call) : value := L [vS (c_plugin c); vLS (c_cmd c); vLS (c_args c); vB (c_thr c)].
+Definition vCall (c : call) : value := L [vS (c_plugin c); vLS (c_cmd c); vLS (c_args c); vB (c_thr c); vFlags (c_attrs c); vFlags (c_rattrs c)].
 Definition vEntry (e : entry) : value := let '(p, c, a) := e in L [vS p; vLS c; vLS a].
 Definition vStatus (s : status) : value :=
   match s with
-  | Done log o => L [vN 0; L (map vCall log); vOutcome o]
+  | Done log o => L [vN 0; L (map vCall log); vOutcome o;
+                     vFlags (match rev log with c :: _ => c_rattrs c | [] => no_flags end)]   (* the root command's reply attributes *)
   | Running st => L [vN 1; L (map vCall (m_log st))]            (* fuel exhausted: never for machine *)
   end.
 
